@@ -41,12 +41,22 @@ pub struct ModelRun {
     pub outcome: Outcome,
     pub graph: MGraph,
     pub trace: Trace,
+    /// steps the reference interpreter took
+    pub steps: u64,
+}
+
+impl ModelRun {
+    /// poll bound for the implementation's run of the same inputs
+    pub fn poll_cap(&self) -> u64 {
+        poll_cap_for(self.steps)
+    }
 }
 
 pub fn model_run(prog: &GProg, tree: &Tree, index: &TreeIndex, source: &str, globals: &BTreeMap<String, CVal>, initial: MGraph) -> ModelRun {
     let mut it = Interp::new(prog, tree, index, source, globals, initial);
     let outcome = it.run();
-    ModelRun { outcome, graph: it.graph, trace: it.trace }
+    let steps = it.steps_used();
+    ModelRun { outcome, graph: it.graph, trace: it.trace, steps }
 }
 
 pub fn rerr_json(e: &RErr) -> J {
